@@ -272,3 +272,9 @@ def representation_private(ctx):
             ctx.check(f in fs and not fs[f]['pub'], adt, 'field %s is private' % f,
                       'field `%s` of %s is visible outside the crate: a key can be assembled without going through read / the '
                       'issuing functions' % (f, adt), fs.get(f, {}).get('vis', '?')[:40], a['span'])
+
+
+@rule('C08', 'witness-private', tier='thorough')
+def witness_private(ctx):
+    from .. import witness
+    witness.check(ctx, ['UserKeyRepresentationIsPrivate', 'MasterKeyRepresentationIsPrivate'])
